@@ -19,3 +19,13 @@ Theorem C20_refuted_without_languagesystem :
   spec_C20 (ri_plain i) (model_scripts i) = false.
 Proof. exact reach_refuted. Qed.
 Print Assumptions C20_refuted_without_languagesystem.
+
+(* ---- kerning between scripts: the lookup of a pair's bucket is registered under EVERY script of that bucket ----
+   (kernFeatureWriter.mergeScripts, Kern/Merge.v: the merged set a bucket is assigned to contains the whole bucket key) *)
+From U2F Require Import Kern.Merge Kern.MergeProofs.
+
+Theorem C20_cross_script_bucket_registered_under_all_its_scripts : forall keys k,
+  In k keys -> k <> [] ->
+  exists z, find (fun z => intersects z k) (merge_sets keys) = Some z /\ incl k z.
+Proof. exact assignment_total_and_whole. Qed.
+Print Assumptions C20_cross_script_bucket_registered_under_all_its_scripts.
